@@ -184,7 +184,7 @@ def run(ctx):
     common.proof_side(ctx, THEOREMS)
     drv = common.Driver()
     rng = ctx.rng
-    n = 70 if ctx.tier == "quick" else 1500
+    n = 150 if ctx.tier == "quick" else 1500
     n_sub = [2 if ctx.tier == "quick" else 25]
     for i in range(n):
         if ctx.left() < 40:
